@@ -746,6 +746,10 @@ func init() {
 						}
 					}
 				}
+				// case folding vs upper-casing (Kelvin sign, Ohm sign, capital sharp s, Angstrom sign)
+				for _, pp := range [][2]string{{"false", "false"}, {"true", "false"}, {"false", "true"}, {"true", "true"}} {
+					jobs = append(jobs, Job{Harness: "VX_C18_plain", Params: P("cs", cs, "pre", pp[0], "post", pp[1], "np", "1", "nc", "1", "kinds", "10", "runes", "fold"), MaxPaths: 500000})
+				}
 				// a literal % next to the wildcard (patterns %%x, x%%, %%x%)
 				jobs = append(jobs, Job{Harness: "VX_C18_plain", Params: P("cs", cs, "pre", "true", "post", "false", "np", "1", "nc", "2", "kinds", "2", "lit", "pre"), MaxPaths: 500000})
 				jobs = append(jobs, Job{Harness: "VX_C18_plain", Params: P("cs", cs, "pre", "false", "post", "true", "np", "1", "nc", "2", "kinds", "2", "lit", "post"), MaxPaths: 500000})
@@ -912,6 +916,7 @@ func init() {
 			jobs = append(jobs, Job{Harness: "VX_C14_tojson", Params: P("shape", "empty", "namelen", "0", "n", "0", "strlen", "1")})
 			jobs = append(jobs, Job{Harness: "VX_C14_tojson", Params: P("shape", "concrete", "namelen", "0", "n", "1", "strlen", "1"), MaxSteps: 50000000})
 			jobs = append(jobs, Job{Harness: "VX_C14_tojson", Params: P("shape", "digits", "namelen", "0", "n", "1", "strlen", "1"), MaxSteps: 50000000})
+			jobs = append(jobs, Job{Harness: "VX_C14_tojson", Params: P("shape", "ints", "namelen", "0", "n", "1", "strlen", "1"), MaxSteps: 100000000})
 			jobs = append(jobs, Job{Harness: "VX_C14_tojson", Params: P("shape", "pow2", "namelen", "0", "n", "1", "strlen", "1"), MaxSteps: 100000000})
 			jobs = append(jobs, Job{Harness: "VX_C14_aggregated"})
 			jobs = append(jobs, Job{Harness: "VX_C14_tojson", Params: P("shape", "big", "namelen", "0", "n", "1", "strlen", "1"), MaxSteps: 400000000})
@@ -1015,7 +1020,7 @@ func init() {
 				tsRead = append(tsRead, "string,string", "bool,int,float", "string,float", "int,float,bool,string")
 				tsRT = append(tsRT, "bool,string", "int,float,bool,string,enum", "enum,enum", "float")
 			}
-			for _, d := range []string{"postgres", "sqlite", "mysql", "plain", "incr", "esc2", "esc3"} {
+			for _, d := range []string{"postgres", "sqlite", "mysql", "plain", "incr", "esc2", "esc3", "incr_mysql", "incr_sqlite", "incr_esc"} {
 				for _, ts := range tsTo {
 					table := "t"
 					if d == "mysql" {
